@@ -166,3 +166,123 @@ func VerifC13DeepPath() {
 	vassert(rerr != nil && errors.Is(rerr, c13Sentinel), "the original error is recoverable through every nesting level")
 	vassert(strings.Contains(rerr.Error(), "node path: ["+want+"]"), "the error names the full failing node path through nested graphs: "+want)
 }
+
+// Several parallel nodes, each succeeding, failing or panicking (at least one fault), under every schedule within the
+// bound, in batch (Pregel/DAG) and eager (Workflow) execution: the run fails with an error that belongs to one of the
+// faulty nodes (its own error value, or a panic error naming its node path); it never succeeds, hangs or crashes.
+func VerifC13ParallelFaults() {
+	ctx := context.Background()
+	vcfg("preempt", 2)
+	mode := vchoose("mode", 3)
+	names := []string{"a", "b", "c"}[:2+vchoose("width", 1+vtier())]
+	kinds := map[string]int{}
+	errsOf := map[string]error{}
+	faults := 0
+	for _, k := range names {
+		kinds[k] = vchoose("kind", 3) // 0 ok, 1 error, 2 panic
+		if kinds[k] != 0 {
+			faults++
+		}
+		errsOf[k] = &c13UserErr{code: len(errsOf) + 1}
+	}
+	if faults == 0 {
+		return
+	}
+	body := func(key string) *Lambda {
+		return InvokableLambda(func(ctx context.Context, in map[string]any) (map[string]any, error) {
+			vyield()
+			switch kinds[key] {
+			case 1:
+				return nil, errsOf[key]
+			case 2:
+				panic("c13 parallel panic in " + key)
+			}
+			return map[string]any{key: 1}, nil
+		})
+	}
+	var r Runnable[map[string]any, map[string]any]
+	var err error
+	if mode == 2 {
+		wf := NewWorkflow[map[string]any, map[string]any]()
+		e := wf.End()
+		for _, k := range names {
+			wf.AddLambdaNode(k, body(k)).AddInput(START)
+			e.AddInput(k, ToField(k))
+		}
+		r, err = wf.Compile(ctx)
+	} else {
+		g := NewGraph[map[string]any, map[string]any]()
+		for _, k := range names {
+			_ = g.AddLambdaNode(k, body(k))
+			_ = g.AddEdge(START, k)
+			_ = g.AddEdge(k, END)
+		}
+		var opts []GraphCompileOption
+		if mode == 1 {
+			opts = append(opts, WithNodeTriggerMode(AllPredecessor))
+		}
+		r, err = g.Compile(ctx, opts...)
+	}
+	vassert(err == nil, "graph compiles")
+	rerr := c13Run(r, vchoose("paradigm", 2), map[string]any{"in": 1})
+	vquiesce()
+	vassert(rerr != nil, "a run with a failing or panicking parallel node fails, whatever the completion order")
+	owned := false
+	for _, k := range names {
+		switch kinds[k] {
+		case 1:
+			if errors.Is(rerr, errsOf[k]) {
+				owned = true
+			}
+		case 2:
+			if strings.Contains(rerr.Error(), "c13 parallel panic in "+k) && strings.Contains(rerr.Error(), "node path: ["+k+"]") {
+				owned = true
+			}
+		}
+	}
+	vassert(owned, "the run error is the error of one of the faulty nodes: its own error value is recoverable with errors.Is, a panic is reported with the panicking node's path")
+}
+
+// Cancellation with a cause (context.WithCancelCause), at the top level and inside a nested graph: the run error
+// still matches context.Canceled with errors.Is.
+func VerifC13CancelCause() {
+	ctx, cancel := context.WithCancelCause(context.Background())
+	nested := vchoose("nested", 2) == 1
+	var g *Graph[map[string]any, map[string]any]
+	if nested {
+		g = NewGraph[map[string]any, map[string]any]()
+		_ = g.AddGraphNode("sub", c13Chain("", nil, false))
+		_ = g.AddEdge(START, "sub")
+		_ = g.AddEdge("sub", END)
+	} else {
+		g = c13Chain("", nil, false)
+	}
+	r, err := g.Compile(context.Background())
+	vassert(err == nil, "graph compiles")
+	cancel(c13Sentinel)
+	rerr := c13RunCtx(ctx, r, vchoose("paradigm", 2), map[string]any{"in": vsymInt("x")})
+	vassert(rerr != nil, "a run with a context cancelled with a cause fails")
+	vassert(errors.Is(rerr, context.Canceled), "errors.Is(run error, context.Canceled) also when the cancellation carries a cause")
+}
+
+func c13RunCtx(ctx context.Context, r Runnable[map[string]any, map[string]any], paradigm int, in map[string]any) error {
+	if paradigm == 0 {
+		_, err := r.Invoke(ctx, in)
+		return err
+	}
+	sr, err := r.Stream(ctx, in)
+	if err != nil {
+		return err
+	}
+	defer sr.Close()
+	for i := 0; i < 8; i++ {
+		_, err := sr.Recv()
+		if err == io.EOF {
+			return nil
+		}
+		if err != nil {
+			return err
+		}
+	}
+	return nil
+}
